@@ -281,8 +281,21 @@ func MatchPat(p Pat, s string) bool {
 	return false
 }
 
+// SnippetKey reports whether key names the elements of a snippet field ([]string field whose name
+// contains Snippet: ServerSnippets, LocationSnippets, HTTPSnippets, StreamSnippets, Snippets).
+// With snippets disabled (the setting of C06) these fields must be empty: class CEmpty.
+func SnippetKey(key string) bool {
+	if !strings.HasSuffix(key, "[]") {
+		return false
+	}
+	return strings.Contains(key[strings.LastIndex(key, ".")+1:], "Snippet")
+}
+
 // Lookup returns the declaration for a field key: a plain class or a shape.
 func Lookup(key string) (class string, shape *Pat, ok bool) {
+	if SnippetKey(key) {
+		return "CEmpty", nil, true
+	}
 	if p, ok := Shape[key]; ok {
 		return "", &p, true
 	}
@@ -311,29 +324,437 @@ func ClassOf(key string) string {
 	if _, ok := Shape[key]; ok {
 		return ""
 	}
+	if SnippetKey(key) {
+		return "CEmpty"
+	}
 	return FieldClass[key]
 }
 
 // ---------------------------------------------------------------------------------------------
 // TABLES
+//
+// Abbreviations in the comments: VAL = pkg/apis/configuration/validation, K8SVAL =
+// internal/k8s/validation.go, PH = internal/configs/parsing_helpers.go, VS =
+// internal/configs/virtualserver.go, ING = internal/configs/ingress.go, ANN =
+// internal/configs/annotations.go, CM = internal/configs/configmaps.go, TS =
+// internal/configs/transportserver.go.  "generated" = built by the controller from Kubernetes
+// namespace/name (DNS-1123) and fixed text.  "time" = output of ParseTime/generateTime
+// ([0-9yMwdhms]+), "size" = ParseSize language \d+[kKmM]?.
 // ---------------------------------------------------------------------------------------------
 
+const (
+	word  = "CWord"
+	wvar  = "CWordVar"
+	bare  = "CBareTok"
+	dq    = "CDQ"
+	cint  = "CInt"
+	quote = "CQuoted"
+)
+
+var (
+	onOff      = Lit("on", "off")
+	onOffEmpty = Lit("on", "off", "")
+	logLevel   = Lit("info", "notice", "warn", "error", "")
+	// a list of plain words separated by single spaces
+	words = Seq(C(word), Many(T(" "), C(word)))
+	// "<file> <destination>": two plain words (app protect log configuration + destination)
+	twoWords = Seq(C(word), T(" "), C(word))
+	// text with NGINX variables written ${name}: word (${word} word)*, or a plain $variable text
+	varText = Alt(Seq(C(word), Many(T("${"), C(word), T("}"), C(word))), C(wvar))
+	// key of the `hash` load-balancing method
+	hashKey = Alt(C(wvar), Seq(T("${"), C(word), T("}")))
+	// "<number> <size>" of proxy_buffers, or empty (the site is guarded by {{if}})
+	buffers = Opt(C(cint), T(" "), C(word))
+
+	httpLB = Alt(
+		C(Lit("", "least_conn", "ip_hash", "random", "random two", "random two least_conn",
+			"random two least_time=header", "random two least_time=last_byte", "least_time header",
+			"least_time last_byte", "least_time header inflight", "least_time last_byte inflight")),
+		Seq(T("hash "), hashKey, Opt(T(" consistent"))))
+	streamLB = Alt(
+		C(Lit("", "least_conn", "random", "random two", "random two least_conn", "random least_conn",
+			"least_time connect", "least_time first_byte", "least_time last_byte", "least_time last_byte inflight")),
+		Seq(T("hash "), hashKey, Opt(T(" consistent"))))
+)
+
 // FieldClass: class of string-typed struct fields (see the package comment for the key format).
-var FieldClass = map[string]string{}
+var FieldClass = map[string]string{
+	// ------------------------------------------------------------------ version1 (Ingress)
+	"version1.Ingress.Name":                        word,                                           // metadata.name (ING generateNginxCfg); also printed inside "..."
+	"version1.Ingress.Namespace":                   word,                                           // metadata.namespace
+	"version1.IngressNginxConfig.Keepalive":        cint,                                           // fmt.Sprint(cfgParams.Keepalive) when > 0, else "" (guarded by if)
+	"version1.IngressNginxConfig.StaticSSLPath":    word,                                           // constant /etc/nginx/secrets; only an argument of makeSecretPath
+	"version1.Server.SSLCertificate":               word,                                           // secret file path /etc/nginx/secrets/<ns>-<name> (configurator)
+	"version1.Server.SSLCertificateKey":            word,                                           // same value
+	"version1.BasicAuth.Secret":                    word,                                           // secret file path; annotation validated by IsDNS1123Subdomain
+	"version1.BasicAuth.Realm":                     dq,                                             // K8SVAL realmFmtRegexp ^([^"$\\]|\\[^$])*$ ; printed with %q only
+	"version1.JWTAuth.Key":                         word,                                           // secret file path
+	"version1.JWTAuth.Realm":                       dq,                                             // K8SVAL validAnnotationValueRegex ^([^"$\\]|\\[^$])*$ ; printed inside "..."
+	"version1.JWTAuth.Token":                       wvar,                                           // SUSPECT: K8SVAL jwtTokenValueFmt \$([^"$\\]|\\[^$])* lets space ; { } through; printed bare
+	"version1.JWTAuth.RedirectLocationName":        word,                                           // generated @login_url_<ns>-<name>
+	"version1.JWTRedirectLocation.Name":            word,                                           // generated, same string
+	"version1.JWTRedirectLocation.LoginURL":        bare,                                           // SUSPECT: K8SVAL validateJWTLoginURLAnnotation = url.Parse + scheme + host only; printed bare
+	"version1.LimitReq.Zone":                       word,                                           // generated <ns>/<name>
+	"version1.LimitReq.LogLevel":                   logLevel,                                       // ANN: slices.Contains enum, default error
+	"version1.LimitReqZone.Name":                   word,                                           // generated
+	"version1.LimitReqZone.Rate":                   word,                                           // PH ParseRequestRate ^(\d+)(r/s|r/m)$ (generator side; annotation itself unvalidated, F26)
+	"version1.LimitReqZone.Size":                   word,                                           // PH ParseSize (generator side, F26)
+	"version1.Location.ClientMaxBodySize":          word,                                           // PH ParseOffset \d+[kKmMgG]? ; SUSPECT: validator trims, generator stores the raw annotation
+	"version1.Location.ProxyBufferSize":            word,                                           // size; same trim mismatch
+	"version1.Location.ProxyMaxTempFileSize":       word,                                           // size; same trim mismatch
+	"version1.Location.ProxyConnectTimeout":        word,                                           // time (ParseTime output stored); ConfigMap value raw
+	"version1.Location.ProxyReadTimeout":           word,                                           // time
+	"version1.Location.ProxySendTimeout":           word,                                           // time
+	"version1.Location.ProxySSLName":               word,                                           // generated <svc>.<ns>.svc
+	"version1.Location.Rewrite":                    bare,                                           // KNOWN WEAK F27: PH pathRegexp ^/[^\s{};$]*$ admits a backslash; printed glued to the upstream name
+	"version1.Location.ServiceName":                word,                                           // backend service name (DNS-1035 by the API server); printed inside "..."
+	"version1.Server.AppProtectDosAccessLogDst":    word,                                           // stderr | syslog:server=<host:port>, dos validation anchored regexes
+	"version1.Server.AppProtectDosAllowListPath":   word,                                           // generated file path; printed inside "..."
+	"version1.Server.AppProtectDosEnable":          onOffEmpty,                                     // generated from a bool
+	"version1.Server.AppProtectDosMonitorProtocol": Lit("http1", "http2", "grpc", "websocket", ""), // dos validation validMonitorProtocol
+	"version1.Server.AppProtectDosMonitorURI":      word,                                           // SUSPECT: url.Parse + escaped-string only; printed bare (uri=...) AND inside "..."
+	"version1.Server.AppProtectDosName":            dq,                                             // <ns>/<name>/<spec.name>, spec.name by ValidateEscapedString; inside "..."
+	"version1.Server.AppProtectDosPolicyFile":      word,                                           // generated file path
+	"version1.Server.AppProtectEnable":             onOffEmpty,                                     // ANN: bool annotation -> on/off
+	"version1.Server.AppProtectLogEnable":          onOffEmpty,                                     // ANN: bool annotation -> on/off
+	"version1.Server.AppProtectPolicy":             word,                                           // generated file path
+	"version1.Server.Name":                         word,                                           // rule.host (DNS-1123 / wildcard by the API server)
+	"version1.Server.StatusZone":                   word,                                           // rule.host
+	"version1.Server.ServerTokens":                 dq,                                             // Plus: K8SVAL validAnnotationValueRegex; OSS: on/off (see PipelineClass); ConfigMap raw for Plus
+	"version1.Server.ProxyHideHeaders[]":           word,                                           // K8SVAL validateHTTPHeadersAnnotation IsHTTPHeaderName after TrimSpace; generator does not trim
+	"version1.Server.ProxyPassHeaders[]":           word,                                           // same
+	"version1.Server.RealIPHeader":                 word,                                           // ConfigMap real-ip-header, raw
+	"version1.Server.SetRealIPFrom[]":              word,                                           // ConfigMap set-real-ip-from, raw split on comma
+	"version1.Upstream.Name":                       word,                                           // generated <ns>-<ing>-<host>-<svc>-<port>
+	"version1.Upstream.UpstreamZoneSize":           word,                                           // size; trim mismatch; ConfigMap raw
+	"version1.UpstreamServer.Address":              word,                                           // ip:port from EndpointSlices / externalName:port
+	"version1.UpstreamServer.FailTimeout":          word,                                           // time; ConfigMap raw
+	"version1.UpstreamServer.SlowStart":            word,                                           // time
+	"version1.HealthCheck.UpstreamName":            word,                                           // generated
+	"version1.HealthCheck.Scheme":                  Lit("http", "https"),                           // ToLower of the readinessProbe scheme (API server enum)
+	"version1.HealthCheck.URI":                     bare,                                           // SUSPECT: readinessProbe httpGet.path of a Pod, not validated by the controller; printed bare uri=
+	"version1.HealthCheck.Headers[key]":            word,                                           // readinessProbe header name (API server IsHTTPHeaderName)
+	"version1.HealthCheck.Headers[val]":            dq,                                             // SUSPECT: readinessProbe header value, not validated; printed inside "..."
 
-// FuncClass: class of the output of a template helper function when printed directly.
-var FuncClass = map[string]string{}
+	// ------------------------------------------------------------------ version2 (VirtualServer)
+	"version2.Upstream.Name":                        word,                                      // upstreamNamer vs_<ns>_<vs>_<upstream>; upstream name DNS-1035
+	"version2.Upstream.FailTimeout":                 word,                                      // time; ConfigMap raw
+	"version2.Upstream.SlowStart":                   word,                                      // time
+	"version2.Upstream.UpstreamZoneSize":            word,                                      // ConfigMap upstream-zone-size raw (defaults 256k / 512k)
+	"version2.UpstreamServer.Address":               word,                                      // ip:port / externalName:port / fixed unix socket
+	"version2.Queue.Timeout":                        word,                                      // time
+	"version2.SessionCookie.Name":                   word,                                      // VAL isCookieName ^[_A-Za-z0-9]+$
+	"version2.SessionCookie.Domain":                 word,                                      // VAL IsDNS1123Subdomain (leading dot allowed)
+	"version2.SessionCookie.Expires":                word,                                      // max | time; SUSPECT: raw value, timeRegexp allows white space between units
+	"version2.SessionCookie.Path":                   bare,                                      // VAL pathFmt ^/[^\s{};\\]*$ ; printed path=...
+	"version2.SessionCookie.SameSite":               word,                                      // VAL ToLower in {strict,lax,none}; template applies toLower
+	"version2.KeyVal.Key":                           quote,                                     // generated, the double quotes are part of the value
+	"version2.KeyVal.Variable":                      wvar,                                      // generated $vs_..._keyval_...
+	"version2.KeyVal.ZoneName":                      word,                                      // generated
+	"version2.KeyValZone.Name":                      word,                                      // generated
+	"version2.KeyValZone.Size":                      word,                                      // constant 100k
+	"version2.KeyValZone.State":                     word,                                      // generated /etc/nginx/state_files/<zone>.json
+	"version2.SplitClient.Source":                   wvar,                                      // constant $request_id
+	"version2.SplitClient.Variable":                 wvar,                                      // generated
+	"version2.Distribution.Value":                   word,                                      // generated /internal_location_splits_N_split_i
+	"version2.Distribution.Weight":                  word,                                      // <0..100>%
+	"version2.Map.Source":                           wvar,                                      // $http_x / $cookie_x / $arg_x / whitelisted variables / generated; SUSPECT: rate-limit jwt claim
+	"version2.Map.Variable":                         wvar,                                      // generated
+	"version2.StatusMatch.Name":                     word,                                      // generated <upstream>_match
+	"version2.Server.ServerName":                    word,                                      // VAL validateHost
+	"version2.Server.StatusZone":                    word,                                      // spec.host
+	"version2.Server.VSName":                        word,                                      // metadata
+	"version2.Server.VSNamespace":                   word,                                      // metadata
+	"version2.Server.ServerTokens":                  dq,                                        // on/off, or the raw ConfigMap server-tokens for Plus; always inside "..."
+	"version2.Server.RealIPHeader":                  word,                                      // ConfigMap raw
+	"version2.Server.SetRealIPFrom[]":               word,                                      // ConfigMap raw
+	"version2.Server.Allow[]":                       word,                                      // VAL policy validateIPorCIDR
+	"version2.Server.Deny[]":                        word,                                      // same
+	"version2.Location.Allow[]":                     word,                                      // same
+	"version2.Location.Deny[]":                      word,                                      // same
+	"version2.TLSRedirect.BasedOn":                  Lit("$scheme", "$http_x_forwarded_proto"), // VS generateTLSRedirectConfig enum mapping
+	"version2.InternalRedirectLocation.Destination": wvar,                                      // generated variable / internal location
+	"version2.HealthCheck.Name":                     word,                                      // upstream name
+	"version2.HealthCheck.URI":                      bare,                                      // VAL validatePath pathFmt; printed uri=...
+	"version2.HealthCheck.Interval":                 word,                                      // time
+	"version2.HealthCheck.Jitter":                   word,                                      // time
+	"version2.HealthCheck.KeepaliveTime":            word,                                      // time
+	"version2.HealthCheck.Match":                    word,                                      // generated
+	"version2.HealthCheck.ProxyConnectTimeout":      word,                                      // time; ConfigMap fallback raw
+	"version2.HealthCheck.ProxyReadTimeout":         word,                                      // time
+	"version2.HealthCheck.ProxySendTimeout":         word,                                      // time
+	"version2.HealthCheck.ProxyPass":                word,                                      // generated http(s)://<upstream>
+	"version2.HealthCheck.GRPCPass":                 word,                                      // generated grpc(s)://<upstream>
+	"version2.HealthCheck.GRPCService":              bare,                                      // SUSPECT: VAL validateGrpcService ^[^\s{};]*$ admits a backslash; printed bare before ;
+	"version2.HealthCheck.Headers[key]":             word,                                      // VAL validateHeader IsHTTPHeaderName
+	"version2.HealthCheck.Headers[val]":             dq,                                        // VAL isValidHeaderValue ^([^"$\\]|\\[^$])*$ ; inside "..."
+	"version2.ErrorPageLocation.Name":               word,                                      // generated @error_page_i_j
+	"version2.ErrorPageLocation.DefaultType":        dq,                                        // VAL validateActionReturnType ^([^;\{\}"\\]|\\.)*$ ; inside "..."
+	"version2.ReturnLocation.Name":                  word,                                      // generated @return_n
+	"version2.ReturnLocation.DefaultType":           dq,                                        // same validator
+	"version2.Header.Name":                          word,                                      // IsHTTPHeaderName for proxy set/add headers and errorPage headers; SUSPECT: action.return.headers unvalidated
+	"version2.Header.Value":                         dq,                                        // escaped string + variable whitelist; SUSPECT: action.return.headers unvalidated; inside "..."
+	"version2.Return.Text":                          dq,                                        // VAL validateEscapedStringWithVariables; inside "..."
+	"version2.ErrorPage.Name":                       dq,                                        // redirect URL (escaped string) or generated @name; inside "..."
+	"version2.Location.ServiceName":                 word,                                      // upstream.service DNS-1035; inside "..."
+	"version2.Location.VSRName":                     word,                                      // metadata
+	"version2.Location.VSRNamespace":                word,                                      // metadata
+	"version2.Location.ClientMaxBodySize":           word,                                      // offset; trim mismatch; ConfigMap raw
+	"version2.Location.ProxyBufferSize":             word,                                      // size; trim mismatch
+	"version2.Location.ProxyConnectTimeout":         word,                                      // time
+	"version2.Location.ProxyReadTimeout":            word,                                      // time
+	"version2.Location.ProxySendTimeout":            word,                                      // time
+	"version2.Location.ProxyMaxTempFileSize":        word,                                      // ConfigMap raw only
+	"version2.Location.ProxyNextUpstreamTimeout":    word,                                      // time
+	"version2.Location.ProxyPass":                   wvar,                                      // generated http(s)://<upstream>[$request_uri]
+	"version2.Location.ProxyPassRewrite":            bare,                                      // VAL validateActionProxyRewritePath pathFmt; printed glued to ProxyPass
+	"version2.Location.GRPCPass":                    word,                                      // generated
+	"version2.Location.InternalProxyPass":           word,                                      // constant http://unix:/var/lib/nginx/nginx-418-server.sock
+	"version2.Location.ProxyHideHeaders[]":          word,                                      // IsHTTPHeaderName
+	"version2.Location.ProxyPassHeaders[]":          word,                                      // IsHTTPHeaderName
+	"version2.Location.ProxySSLName":                word,                                      // generated <svc>.<ns>.svc
 
-// PipelineClass: overrides keyed by "<template base name>|<pipeline text as printed by parse>".
-var PipelineClass = map[string]string{}
+	// ------------------------------------------------------------------ version2 (policies)
+	"version2.APIKey.MapName":                    word, // generated; inside "..."
+	"version2.APIKey.Header[]":                   word, // VAL policy IsHTTPHeaderName
+	"version2.APIKey.Query[]":                    word, // SUSPECT: only ValidateEscapedString (space ; { } % \" pass); printed as ${arg_<q>} inside "..." and used as printf FORMAT
+	"version2.AuthJWTClaimSet.Variable":          wvar, // generated $jwt_<ns>_<vs>_<claim>; SUSPECT: claim guarded by the CRD pattern only
+	"version2.BasicAuth.Secret":                  word, // secret file path
+	"version2.BasicAuth.Realm":                   dq,   // VAL validateRealm; printed with %q only
+	"version2.Dos.AllowListPath":                 word, // generated; inside "..."
+	"version2.Dos.ApDosAccessLogDest":            word, // stderr | syslog:server=host:port
+	"version2.Dos.ApDosMonitorProtocol":          Lit("http1", "http2", "grpc", "websocket", ""),
+	"version2.Dos.ApDosMonitorURI":               word,  // SUSPECT: url.Parse + escaped string; printed bare AND inside "..."
+	"version2.Dos.ApDosPolicy":                   word,  // generated
+	"version2.Dos.Enable":                        onOff, // internal/configs/dos.go: on/off whenever a Dos struct exists
+	"version2.Dos.Name":                          dq,    // <ns>/<name>/<spec.name>; inside "..."
+	"version2.EgressMTLS.Certificate":            word,  // secret file path
+	"version2.EgressMTLS.CertificateKey":         word,
+	"version2.EgressMTLS.Ciphers":                word,                                           // SUSPECT: no validator at all (VAL validateEgressMTLS ignores it); printed bare
+	"version2.EgressMTLS.SSLName":                wvar,                                           // $proxy_host or DNS-1123 (VAL validateSSLName)
+	"version2.EgressMTLS.TrustedCert":            word,                                           // generated
+	"version2.IngressMTLS.ClientCert":            word,                                           // generated
+	"version2.IngressMTLS.ClientCrl":             word,                                           // SUSPECT: /etc/nginx/secrets/ + crlFileName, crlFileName not validated
+	"version2.IngressMTLS.VerifyClient":          Lit("on", "off", "optional", "optional_no_ca"), // VAL validateIngressMTLS
+	"version2.JWTAuth.Key":                       word,                                           // <ns>/<policy name>
+	"version2.JWTAuth.KeyCache":                  word,                                           // time; SUSPECT: raw value, white space between units passes validateTime
+	"version2.JWTAuth.Realm":                     dq,                                             // VAL validateRealm; inside "..."
+	"version2.JWTAuth.Secret":                    word,                                           // secret file path
+	"version2.JWTAuth.Token":                     wvar,                                           // VAL validateJWTToken $(arg|http|cookie)_name
+	"version2.JwksURI.JwksHost":                  word,                                           // url.Hostname, IsDNS1123Subdomain
+	"version2.JwksURI.JwksPath":                  bare,                                           // SUSPECT: url.Path (percent-decoded), only non-empty is checked; printed bare
+	"version2.JwksURI.JwksPort":                  word,                                           // digits or empty
+	"version2.JwksURI.JwksScheme":                word,                                           // url scheme
+	"version2.LimitReq.ZoneName":                 word,                                           // generated
+	"version2.LimitReqOptions.LogLevel":          logLevel,                                       // VAL policy enum
+	"version2.LimitReqZone.Rate":                 word,                                           // VAL validateRate ^[1-9]\d*r/[sSmM]$
+	"version2.LimitReqZone.ZoneName":             word,                                           // generated
+	"version2.LimitReqZone.ZoneSize":             word,                                           // size; trim mismatch
+	"version2.OIDC.AuthEndpoint":                 dq,                                             // SUSPECT: VAL validateURL (url.Parse + host) lets a double quote through; inside "..."
+	"version2.OIDC.TokenEndpoint":                dq,                                             // same
+	"version2.OIDC.JwksURI":                      dq,                                             // same
+	"version2.OIDC.EndSessionEndpoint":           dq,                                             // same
+	"version2.OIDC.AuthExtraArgs":                dq,                                             // SUSPECT: url.ParseQuery only; inside "..."
+	"version2.OIDC.ClientID":                     dq,                                             // VAL validateClientID ^([^"$\\]|\\[^$])*$
+	"version2.OIDC.ClientSecret":                 dq,                                             // secrets.ValidateOIDCSecret ^([^"$\\\s]|\\[^$])*$
+	"version2.OIDC.PostLogoutRedirectURI":        dq,                                             // SUSPECT: VAL validatePath pathFmt admits a double quote; inside "..."
+	"version2.OIDC.RedirectURI":                  dq,                                             // same
+	"version2.OIDC.Scope":                        dq,                                             // VAL validateOIDCScope range table (no space, dq, backslash)
+	"version2.SSL.Certificate":                   word,                                           // secret file path
+	"version2.SSL.CertificateKey":                word,
+	"version2.VirtualServerConfig.StaticSSLPath": word,
+	"version2.WAF.ApBundle":                      word,  // path.Join(bundle dir, IsQualifiedName)
+	"version2.WAF.ApPolicy":                      word,  // generated
+	"version2.WAF.Enable":                        onOff, // VS addWAFConfig: on/off whenever a WAF struct exists
+
+	// ------------------------------------------------------------------ version2 (TransportServer)
+	"version2.StreamUpstream.Name":                   word, // ts_<ns>_<name>_<upstream>
+	"version2.StreamUpstreamServer.Address":          word,
+	"version2.StreamUpstreamServer.FailTimeout":      word, // time
+	"version2.StreamUpstreamBackupServer.Address":    word,
+	"version2.StreamServer.ProxyConnectTimeout":      word, // time
+	"version2.StreamServer.ProxyNextUpstreamTimeout": word, // time
+	"version2.StreamServer.ProxyTimeout":             word, // time
+	"version2.StreamServer.ProxyPass":                word, // generated
+	"version2.StreamServer.StatusZone":               word, // listener name / host
+	"version2.StreamServer.UnixSocket":               word, // generated unix:/var/lib/nginx/passthrough-<ns>_<name>.sock
+	"version2.StreamServer.ServerName":               word, // VAL validateHost; printed by makeServerName inside "..."
+	"version2.StreamSSL.Certificate":                 word,
+	"version2.StreamSSL.CertificateKey":              word,
+	"version2.TransportServerConfig.StaticSSLPath":   word,
+	"version2.StreamHealthCheck.Interval":            word,               // time
+	"version2.StreamHealthCheck.Jitter":              word,               // time
+	"version2.StreamHealthCheck.Timeout":             word,               // time
+	"version2.StreamHealthCheck.Match":               word,               // generated
+	"version2.Match.Name":                            word,               // generated
+	"version2.Match.Send":                            dq,                 // SUSPECT: VAL transportserver.go validateTransportServerMatch passes match.Expect to validateMatchSend, Send itself is never validated; inside "..."
+	"version2.Match.Expect":                          dq,                 // VAL validateMatchExpect escaped string; inside "..."
+	"version2.Match.ExpectRegexModifier":             Lit("", "~", "~*"), // TS generateTransportServerHealthCheck
+	"version2.TLSPassthroughHostsConfig[key]":        word,               // TransportServer spec.host (VAL validateHost)
+	"version2.TLSPassthroughHostsConfig[val]":        word,               // TS generateUnixSocket
+}
 
 // Shape: shapes for field keys, for helper functions ("func:<name>") and for pipelines
 // ("pipe:<template base name>|<pipeline text>").
-var Shape = map[string]Pat{}
+var Shape = map[string]Pat{
+	// ---- fields that are legitimately several tokens
+	"version1.Upstream.LBMethod":                  httpLB,                              // PH ParseLBMethod(ForPlus); SUSPECT: validateHashLBMethod does not look at the hash key
+	"version2.Upstream.LBMethod":                  httpLB,                              // same parser through VAL validateUpstreamLBMethod; raw CRD value stored
+	"version2.StreamUpstream.LoadBalancingMethod": streamLB,                            // KNOWN WEAK F29
+	"version1.Upstream.StickyCookie":              Seq(C(bare), Many(T(" "), C(bare))), // KNOWN WEAK F28: cookie name and parameters
+	"version1.Location.ProxyBuffers":              buffers,                             // PH ParseProxyBuffersSpec ^\d+ \d+[kKmM]?$
+	"version2.Location.ProxyBuffers":              buffers,                             // VS generateBuffers "%v %v"
+	"version1.Server.AppProtectLogConfs[]":        twoWords,                            // <logconf file> <destination>; SUSPECT: VAL appprotect_common.go regexes are unanchored
+	"version2.WAF.ApLogConf[]":                    twoWords,                            // same validator
+	"version1.Server.AppProtectDosLogConfFile":    Opt(C(word), T(" "), C(word)),       // generated file + validated destination (anchored)
+	"version2.Dos.ApDosLogConf":                   Opt(C(word), T(" "), C(word)),
+	"version2.ErrorPage.Codes":                    Seq(C(cint), Many(T(" "), C(cint))),               // VS: codes joined by a space
+	"version2.StatusMatch.Code":                   Seq(Opt(T("! ")), C(word), Many(T(" "), C(word))), // VAL validateStatusMatch: [!] code|range ...
+	"version2.Location.ProxyNextUpstream":         words,                                             // VAL validateNextUpstream enum words; SUSPECT: strings.Fields accepts any white space, raw value stored
+	"version2.Location.ProxyIgnoreHeaders":        Opt(words),                                        // VS strings.Join(validated enum, " ")
+	"version2.EgressMTLS.Protocols":               words,                                             // SUSPECT: no validator at all; default TLSv1 TLSv1.1 TLSv1.2
+	"version2.AuthJWTClaimSet.Claim":              words,                                             // claim path with . replaced by a space; SUSPECT: CRD pattern only
+	// NGINX map / split_clients parameters: a quoted string, one of the escaped special words, or a plain word
+	"version2.Parameter.Value":  Alt(C(quote), C(Lit(`\default`, `\hostnames`, `\include`, `\volatile`)), C(word)), // VS generateValueForMatchesRouteMap "%s" of an escaped string; ~^0*1; default; SUSPECT: rate-limit jwt match
+	"version2.Parameter.Result": Alt(C(quote), C(Lit(`''`)), varText),                                              // 0 / 1 / $variable / internal location / "" / '' / "client id" / Val<rate-limit key with ${var}>
+	// rate-limit keys: text with ${var} references
+	"version1.LimitReqZone.Key": varText, // KNOWN WEAK F26 (annotation nginx.org/limit-req-key unvalidated); default ${binary_remote_addr}
+	"version2.LimitReqZone.Key": varText, // VAL validateRateLimitKey; SUSPECT: text outside ${...} is only an escaped string (space ; { } pass)
+	// location paths
+	"version1.Location.Path":                 Seq(Opt(T("= ")), C(bare)),                                    // KNOWN WEAK F06; ING generateIngressPath prefixes "= " for pathType Exact
+	"version2.Location.Path":                 Alt(C(bare), Seq(T("~ "), C(quote)), Seq(T("~* "), C(quote))), // VS generatePath quotes regex paths; SUSPECT: regex routes with action redirect/return keep the raw path
+	"version2.InternalRedirectLocation.Path": Alt(C(bare), Seq(T("~ "), C(bare)), Seq(T("~* "), C(bare))),   // raw route path; SUSPECT: regex route paths are escaped strings, not bare tokens
+	"version2.Location.Rewrites[]": Alt(
+		Seq(T("^ "), C(wvar), Opt(T(" break"))),       // ^ $request_uri break / ^ $request_uri_no_args
+		Seq(C(quote), T(" "), C(quote), T(" break"))), // "^path" "rewrite" break; SUSPECT: VS generateRewrites TrimSpace can expose a lone backslash
 
-// Doubtful: field keys whose class the author could not fully establish from the validators.
-var Doubtful = []string{}
+	// ---- helper functions
+	// version2/template_helper.go makeServerName: `server_name "<ServerName>";` or empty
+	"func:makeServerName": Opt(T(`server_name "`), F("version2.StreamServer.ServerName"), T(`";`)),
+	// version2/template_helper.go makeHeaderQueryValue: "${http_<lower(header), - -> _>}...${arg_<query>}..."
+	// (ToLower and ReplaceAll - _ keep a CWord a CWord)
+	"func:makeHeaderQueryValue": Seq(T(`"`), Many(T("${http_"), F("version2.APIKey.Header[]"), T("}")),
+		Many(T("${arg_"), F("version2.APIKey.Query[]"), T("}")), T(`"`)),
+	// version1/template_helper.go makeLocationPath / makePathWithRegex: the path bare, or
+	// `~ "^path"`, `~* "^path"`, `= "path"` when nginx.org/path-regex is set (K8SVAL validatePath:
+	// an escaped string without white space and ; , hence CDQ inside the quotes)
+	"func:makeLocationPath": Alt(F("version1.Location.Path"),
+		Seq(T(`~ "^`), C(dq), T(`"`)), Seq(T(`~* "^`), C(dq), T(`"`)), Seq(T(`= "`), C(dq), T(`"`))),
+	// version1/template_helper.go generateProxySetHeaders: zero or more lines
+	// `\n\t\tproxy_set_header <name> $http_<name lower, - -> _>;` or `... <name> %q;`; the name is
+	// checked against ^[-A-Za-z0-9]+$ inside the helper on every path before it is printed
+	"func:generateProxySetHeaders": Many(T("\n\t\tproxy_set_header "), C(word), T(" "),
+		Alt(Seq(T("$http_"), C(word)), C(quote)), T(";")),
 
-// KnownWeak: fields that do NOT in fact satisfy the class their site needs (known defects of
+	// ---- pipelines
+	// `makeLocationPath ... | printf` uses the PATH as a printf format.  The generic rule of the
+	// translator refuses this for the quoted alternatives (CDQ is not closed under Sprintf with no
+	// operands: the path /a%\"{ becomes ~ "^/a%!\(MISSING)"{" and leaves the quotes).  That is a
+	// defect of the template, recorded in Suspect; the site gets the shape it is MEANT to have so
+	// that the remaining analysis is not blocked.  Delete these two entries to fail closed.
+	"pipe:nginx.ingress.tmpl|makeLocationPath $location $.Ingress.Annotations | printf":      F("func:makeLocationPath"),
+	"pipe:nginx-plus.ingress.tmpl|makeLocationPath $location $.Ingress.Annotations | printf": F("func:makeLocationPath"),
+}
+
+// FuncClass: class of the output of a template helper function when printed directly.
+var FuncClass = map[string]string{
+	// version2/template_helper.go buildListenDirective: complete `listen [ip:]port [ssl] [proxy_protocol] [udp];\n`
+	// lines built from strconv.Itoa ports, bools and listener addresses validated by
+	// VAL globalconfiguration.go IsValidIPv4Address / IsValidIPv6Address (no zone, hence no %)
+	"makeHTTPListener":      "CLines",
+	"makeHTTPSListener":     "CLines",
+	"makeTransportListener": "CLines",
+	// commonhelpers.MakeOnOffFromBool
+	"makeOnOffFromBool": onOff,
+	// makeSecretPath: rule in the translator (join of the byte-set classes of path and variable)
+	// toLower, toUpper, trim: rule in the translator (class preserving)
+	// replaceAll, split, makeResolver, ...: not used by the six templates; Unknown if they appear
+}
+
+// PipelineClass: overrides keyed by "<template base name>|<pipeline text as printed by parse>".
+var PipelineClass = map[string]string{
+	// OSS Ingress template prints server_tokens bare.  Without NGINX Plus the value can only be
+	// on/off: ANN parseAnnotations / CM ParseConfigMap keep a non-boolean value only when isPlus,
+	// K8SVAL validateServerTokensAnnotation requires a boolean; default "on".
+	"nginx.ingress.tmpl|$server.ServerTokens": onOff,
+}
+
+// Doubtful: field keys whose class the author could not fully establish from the validators of
+// /repo (the class given is the one the site needs).
+var Doubtful = []string{
+	// values taken RAW from the ConfigMap (administrator supplied, no validation in CM ParseConfigMap)
+	"version1.Server.RealIPHeader", "version1.Server.SetRealIPFrom[]", "version2.Server.RealIPHeader",
+	"version2.Server.SetRealIPFrom[]", "version2.Upstream.UpstreamZoneSize", "version2.Location.ProxyMaxTempFileSize",
+	"version1.Server.ServerTokens", "version2.Server.ServerTokens", // Plus: raw ConfigMap server-tokens inside "..."
+	// ConfigMap fallbacks stored raw for fields that are normalised when they come from an annotation / CRD
+	"version1.Location.ProxyConnectTimeout", "version1.Location.ProxyReadTimeout", "version1.Location.ProxySendTimeout",
+	"version1.UpstreamServer.FailTimeout", "version2.Upstream.FailTimeout", "version2.Location.ProxyConnectTimeout",
+	"version2.Location.ProxyReadTimeout", "version2.Location.ProxySendTimeout",
+	// guaranteed by the Kubernetes API server only (no check in /repo)
+	"version1.UpstreamServer.Address", "version2.UpstreamServer.Address", "version2.StreamUpstreamServer.Address",
+	"version2.StreamUpstreamBackupServer.Address", "version1.Server.Name", "version1.Server.StatusZone",
+	"version1.Upstream.Name", "version1.HealthCheck.Scheme", "version1.HealthCheck.Headers[key]",
+	// validator trims white space, generator stores the untrimmed value (leading/trailing white space possible)
+	"version1.Location.ClientMaxBodySize", "version1.Location.ProxyBufferSize", "version1.Location.ProxyMaxTempFileSize",
+	"version1.Upstream.UpstreamZoneSize", "version1.Server.ProxyHideHeaders[]", "version1.Server.ProxyPassHeaders[]",
+	"version2.Location.ClientMaxBodySize", "version2.Location.ProxyBufferSize", "version2.LimitReqZone.ZoneSize",
+	"version2.SessionCookie.Expires", "version2.JWTAuth.KeyCache", "version2.Location.ProxyNextUpstream",
+	"version2.Upstream.LBMethod", "version2.StreamUpstream.LoadBalancingMethod",
+	// with nginx.org/path-regex the path is only an escaped string (fine inside the quotes the helper adds)
+	"version1.Location.Path",
+}
+
+// KnownWeak: fields that do NOT in fact satisfy the class their site needs (recorded defects of
 // /repo); classified with the class the site needs; value = finding id.
-var KnownWeak = map[string]string{}
+var KnownWeak = map[string]string{
+	"version1.LimitReqZone.Key":                   "F26",
+	"version1.LimitReqZone.Rate":                  "F26",
+	"version1.LimitReqZone.Size":                  "F26",
+	"version1.Location.Rewrite":                   "F27",
+	"version1.Upstream.StickyCookie":              "F28",
+	"version2.StreamUpstream.LoadBalancingMethod": "F29",
+	"version1.Location.Path":                      "F06",
+}
+
+// Suspect: fields / pipelines for which READING the validators suggests that a structural byte
+// can reach the site (not yet reproduced on the real code; candidates for the adversarial corpus
+// of the C06 harness).  Classified with the class the site needs.
+var Suspect = map[string]string{
+	"version1.JWTAuth.Token":                  "nginx.com/jwt-token: regex \\$([^\"$\\\\]|\\\\[^$])* admits space ; { }; printed bare token=...  e.g. `$cookie_x; return 403`",
+	"version1.JWTRedirectLocation.LoginURL":   "nginx.com/jwt-login-url: url.Parse + scheme + host only; printed bare `return 302 X;`  e.g. `https://h/x; return 200 pwn`",
+	"version1.Server.AppProtectDosMonitorURI": "DosProtectedResource apDosMonitor.uri: url.Parse + escaped string; printed bare uri=X when protocol/timeout set  e.g. `h/x; app_protect_dos_enable off`",
+	"version2.Dos.ApDosMonitorURI":            "same as version1.Server.AppProtectDosMonitorURI",
+	"version1.Server.AppProtectLogConfs[]":    "app-protect-security-log-destination: unanchored regexes in VAL appprotect_common.go; e.g. `/dev/null; app_protect_enable off`",
+	"version2.WAF.ApLogConf[]":                "waf securityLog logDest: same unanchored regexes",
+	"version1.Upstream.LBMethod":              "nginx.org/lb-method `hash <key>`: key only split on 0x20; TAB ; { } pass  e.g. `hash $uri;x`",
+	"version2.Upstream.LBMethod":              "upstream lb-method `hash <key>`: same parser, raw CRD value printed",
+	"version1.HealthCheck.URI":                "Pod readinessProbe httpGet.path is printed bare uri=X without any check",
+	"version1.HealthCheck.Headers[val]":       "Pod readinessProbe header value printed inside \"...\" without any check",
+	"version2.HealthCheck.GRPCService":        "^[^\\s{};]*$ admits a trailing backslash which swallows the terminating ;",
+	"version2.Header.Name":                    "action.return.headers[].name is not validated (VAL validateActionReturn); printed bare",
+	"version2.Header.Value":                   "action.return.headers[].value is not validated; printed inside \"...\"",
+	"version2.Location.Path":                  "regex route with action.redirect / action.return keeps the raw path (VS generateLocationForRedirect/Return), e.g. `~ [0-9a-z]{4}`",
+	"version2.InternalRedirectLocation.Path":  "raw route path for matches/splits; regex paths are escaped strings",
+	"version2.Location.Rewrites[]":            "VS generateRewrites: TrimSpace after stripping ~ can leave a lone backslash before the closing quote; internal non-regex path may hold a double quote",
+	"version2.Map.Source":                     "rate-limit condition.jwt.claim guarded by the CRD schema pattern only (; { } backslash pass)",
+	"version2.Map.Variable":                   "same (rl group variable built from the claim)",
+	"version2.Parameter.Value":                "rate-limit condition.jwt.match printed bare, CRD pattern only",
+	"version2.Parameter.Result":               "rate-limit `Val`+key / match printed bare",
+	"version2.AuthJWTClaimSet.Claim":          "rate-limit condition.jwt.claim, CRD pattern only",
+	"version2.AuthJWTClaimSet.Variable":       "same",
+	"version2.APIKey.Query[]":                 "apiKey suppliedIn.query: escaped string only; inside \"${arg_X}\" and through printf-as-format (`%\\\"` leaves the quotes)",
+	"version2.EgressMTLS.Ciphers":             "egressMTLS.ciphers has no validator; printed bare  e.g. `DEFAULT; return 200 x`",
+	"version2.EgressMTLS.Protocols":           "egressMTLS.protocols has no validator; printed bare",
+	"version2.IngressMTLS.ClientCrl":          "ingressMTLS.crlFileName has no validator; printed bare after /etc/nginx/secrets/",
+	"version2.JwksURI.JwksPath":               "jwt.jwksURI path (percent-decoded by url.Parse) printed bare  e.g. `https://idp/k; return 200 x`",
+	"version2.LimitReqZone.Key":               "rateLimit.key: text outside ${...} is only an escaped string  e.g. `${binary_remote_addr} zone=z:1m rate=1r/s; }`",
+	"version2.OIDC.AuthEndpoint":              "validateURL = url.Parse + host check; path/query may hold a double quote; printed inside \"...\"",
+	"version2.OIDC.TokenEndpoint":             "same",
+	"version2.OIDC.JwksURI":                   "same",
+	"version2.OIDC.EndSessionEndpoint":        "same",
+	"version2.OIDC.AuthExtraArgs":             "url.ParseQuery only; double quote and backslash pass; printed inside \"...\"",
+	"version2.OIDC.PostLogoutRedirectURI":     "validatePath pathFmt admits a double quote; printed inside \"...\"",
+	"version2.OIDC.RedirectURI":               "same",
+	"version2.Match.Send":                     "TransportServer healthCheck.match.send is never validated (validateMatchSend is called with match.Expect); printed inside \"...\"",
+	"pipe:makeLocationPath | printf":          "v1 templates use the location path as a printf FORMAT: % sequences are rewritten (/a%20b -> /a%!b(MISSING)) and with path-regex `%\\\"` leaves the quotes",
+}
